@@ -1,5 +1,6 @@
 CONSTANTS EP = ${EP}  Prefixes = ${Prefixes}  Types = ${Types}
 CONSTANT Focus = ${Focus}
+CONSTANT Strats = ${Strats}
 CONSTANT AllowedChoices = {{}}
 INIT Init
 NEXT GenNext
